@@ -16,7 +16,7 @@ import time
 from collections import Counter
 from pathlib import Path
 
-from . import common, drv, drv_sweep as sw, tables
+from . import common, drv, drv_findings as dfind, drv_sweep as sw, tables
 
 PID = "C04"
 
@@ -87,7 +87,8 @@ SITE_OF_SIG = {"range_step_symbolic_bound": "symbolic_math._integrate_over", "li
                "insertion_after_last_line": "core.get_charnos"}
 
 WITNESS = {
-    "F04-9": ["import sys\nn = len(sys.argv)\nprint(sum([3 for z in range(2, n, 3)]))\n"],
+    "F04-16": ["for x in None:\n    print(x)\n"],
+    "F04-11": ["if x: import a, b\n"],
 }
 FIXED_WITNESS = {
     "F04-3": ["é = 1\nprint(é)\n"],
@@ -97,6 +98,8 @@ FIXED_WITNESS = {
     "F04-4": ["if a:\n    x()\n    z()\nelse:\n    y()\n    z()\n",
               "    if a:\n        x()\n        z()\n    else:\n        y()\n        z()\n"],
     "F04-5": ["x = 1 < 'a'\nprint(x)\n", "print([1] <= 2)\n"],
+    "F04-9": ["import sys\nn = len(sys.argv)\nprint(sum([3 for z in range(2, n, 3)]))\n"],
+    "F04-10": ["from __future__ import (\n    annotations,\n)\nx = np.zeros(3)\n", '"""doc\nmore"""\nprint(np.pi)\n'],
     "F04-7": ["print(sum([3 for z in []]))\n"],
     "F04-8": ["def f(x, y):\n    items = []\n    items.append(x + y)\n    return items\n\n\ng_xs = [1, 2]\n"
               "for k in dict(zip(g_xs, g_xs)).keys():\n    pass\nprint(f(1, 2))\n"],
@@ -197,21 +200,22 @@ def check(run: common.Run):
 
     # ---- sweep (not proof)
     fam = sw.build_corpus(run.tier)
-    budget = 55 if run.tier == "quick" else 1500
+    budget = 80 if run.tier == "quick" else 1500
     deadline = time.time() + budget
     jobs, meta = [], {}
     step = {"quick": {"constants": 2, "functions": 3, "repo": 6, "constructs": 1, "blank_runs": 3}, "thorough": {}}[run.tier]
     extra = [w for ws in list(WITNESS.values()) + list(FIXED_WITNESS.values()) for w in ws]
     fam["witnesses"] = extra
-    for name in ("witnesses", "tiny", "imports", "resources", "aggregates", "invalid", "indented", "tabs", "eof", "constructs", "constants",
-                 "functions", "repo", "blank_runs"):
+    for name in ("witnesses", "tiny", "unorderable", "first_statement", "oneline_compound", "decorated_constant", "compile_only",
+                 "imports", "resources", "aggregates", "invalid", "indented", "tabs", "eof", "constructs", "constants",
+                 "functions", "repo", "blank_runs", "alias_chains"):
         srcs = fam[name][::step.get(name, 1)]
         for i, s in enumerate(srcs):
             if run.tier == "thorough" or name in ("witnesses", "invalid", "indented", "tabs", "eof"):
                 combos = sw.OPTION_COMBOS
             elif name == "imports":        # keep_imports decides whether the import tracers run
                 combos = [sw.OPTION_COMBOS[j] for j in (0, 2, 5, 7)]
-            elif name == "tiny":
+            elif name in ("tiny", "first_statement", "oneline_compound", "decorated_constant", "compile_only"):
                 combos = [sw.OPTION_COMBOS[j] for j in (0, 7)]
             elif name in ("resources", "aggregates"):
                 combos = [sw.OPTION_COMBOS[j] for j in ((0, 5) if name == "resources" else (i % 8,))]
@@ -229,6 +233,7 @@ def check(run: common.Run):
     finally:
         workers.close()
     sweep = Counter()
+    matched_ids = set()
     unmatched = {}
     slowest = 0.0
     for jid, r in sorted(results.items()):
@@ -245,9 +250,15 @@ def check(run: common.Run):
             continue
         if r["error"]:
             e = r["error"]
-            f = match_finding(findings, e)
+            sites = {e["stage"], e["inner"]}
+            if e["type"] in dfind.SYNTAX_ERRORS:    # the stage that raised is the victim of the one that broke the text
+                culprit = sw.first_bad_stage(mods, e["input"], opts, sw.valid)
+                if culprit:
+                    sites, e = {culprit}, dict(e, stage=culprit)
+            f = match_finding(findings, e) or dfind.match(findings, sites, e["input"])
             if f is not None:
                 sweep[f"matched {f.id}"] += 1
+                matched_ids.add(f.id)
                 continue
             key = (e["type"], e["stage"], e["inner"])
             if key not in unmatched:
@@ -268,7 +279,9 @@ def check(run: common.Run):
         ws = (WITNESS if f.kind == "finding" else FIXED_WITNESS).get(f.id, [])
         errs = [run_one(mods, w) for w in ws]
         if f.kind == "finding":
-            if any(e is not None and match_finding([f], e) is f for e in errs):
+            if any(e is not None and (match_finding([f], e) is f or
+                                      dfind.match([f], {e["stage"], e["inner"], "main.format_code"}, e["input"]) is f) for e in errs) \
+                    or f.id in matched_ids:
                 run.known_finding(f.id, f"site={f.fields.get('site')} :: {f.text[:150]}")
             elif ws:
                 common.log(f"note: finding {f.id} no longer reproduces")
@@ -279,7 +292,12 @@ def check(run: common.Run):
                                            f"{e['type']}: {e['msg']}", "case": {"source": w, "error": e}})
 
     # ---- verdicts
-    for fi in failing_inputs[:8]:
+    reported_groups = set()
+    for fi in failing_inputs:
+        gkey = (fi.get("kind"), str(fi.get("what"))[:60], fi.get("site"))
+        if gkey in reported_groups or len(reported_groups) >= 24:
+            continue
+        reported_groups.add(gkey)
         run.violation(dict(fi, explanation="the real format_code violates C04 on this input"), True)
     have_input = bool(failing_inputs)
     for d in disagreements[:6]:
